@@ -24,6 +24,7 @@ from ..astutil import (
 from ..cfg import CFG
 from ..core import AnalysisError, Mutant
 from ..layout import INF, Unknown, float_field_width, int_digits, parse_spec
+from ..exprnorm import has_code
 
 EXPLANATION = (
     "Symbolic (min,max) width of every piece PDBFile.set_structure concatenates, bounded by the "
@@ -1100,7 +1101,7 @@ def run(ctx):
     # max numbers used by the guard
     gtxt = ast.unparse(chk)
     ctx.ob("R4.guard-max", FILE, "_check_pdb_compatibility", "max_hybrid36_number(5), max_hybrid36_number(4)",
-           "max_atoms = max_hybrid36_number(5)" in gtxt and "max_residues = max_hybrid36_number(4)" in gtxt,
+           has_code(chk, "max_atoms = max_hybrid36_number(5)") and has_code(chk, "max_residues = max_hybrid36_number(4)"),
            "hybrid-36 limits of the guard do not match the column widths", chk.lineno, nontrivial=False)
 
 
